@@ -12,7 +12,7 @@
   ],
   "driver": "inline"
  },
- "detail": "C19: run_inline reported categories ['fix'] but the report session lists []\n============================= test session starts ==============================\nplatform linux -- Python 3.12.1, pytest-9.1.1, pluggy-1.6.0\nrootdir: /tmp/bsess-fb0ty3zw/proj\nconfigfile: pyproject.toml\nplugins: rerunfailures-16.7, xdist-3.8.0, hypothesis-6.168.0, asyncio-1.4.0, timeout-2.4.0, inline-snapshot-0.22.3, mock-3.15.1, pytest_freezer-0.4.9, cov-7.1.0\nasyncio: mode=Mode.STRICT, debug=False, asyncio_default_fixture_loop_scope=None, asyncio_default_test_loop_scope=function\ncollected 1 item\n\ntest_something.py .E                                                     [100%]\n\n==================================== ERRORS ====================================\n__________________ ERROR at teardown of test_trailing_blanks ___________________\nsome snapshots in this test have incorrect values.\n==================================== PASSES ====================================\n------------ generated xml file: /tmp/bsess-out-e5y2vf_3/junit.xml -------------\n=========================== short test summary info ============================\nPASSED test_something.py::test_trailing_blanks\nERROR test_something.py::test_trailing_blanks - Failed: some snapshots in thi...\n========================== 1 passed, 1 error in 1.01s =========================="
+ "detail": "C19: run_inline reported categories ['fix'] but the report session lists []\n============================= test session starts ==============================\nplatform linux -- Python 3.12.1, pytest-9.1.1, pluggy-1.6.0\nrootdir: /tmp/bsess-wf13m0v2/proj\nconfigfile: pyproject.toml\nplugins: rerunfailures-16.7, xdist-3.8.0, hypothesis-6.168.0, asyncio-1.4.0, timeout-2.4.0, inline-snapshot-0.22.3, mock-3.15.1, pytest_freezer-0.4.9, cov-7.1.0\nasyncio: mode=Mode.STRICT, debug=False, asyncio_default_fixture_loop_scope=None, asyncio_default_test_loop_scope=function\ncollected 1 item\n\ntest_something.py .E                                                     [100%]\n\n==================================== ERRORS ====================================\n__________________ ERROR at teardown of test_trailing_blanks ___________________\nsome snapshots in this test have incorrect values.\n==================================== PASSES ====================================\n------------ generated xml file: /tmp/bsess-out-tzckxb7k/junit.xml -------------\n=========================== short test summary info ============================\nPASSED test_something.py::test_trailing_blanks\nERROR test_something.py::test_trailing_blanks - Failed: some snapshots in thi...\n========================== 1 passed, 1 error in 3.36s =========================="
 }
 """
 
